@@ -19,6 +19,11 @@ func refTraverse(s stackage.Stack, path []int) (v any, ok bool, failStep int) {
 	}
 	cur := s
 	for k, idx := range path {
+		// a Stack that its own validity policy currently rejects is not one to walk into (Traverse shares
+		// its gate with Valid and String); one that merely ends a path is handed out like any other value
+		if cur.Valid() != nil {
+			return nil, false, k
+		}
 		e, found := cur.Index(idx)
 		if !found {
 			return nil, false, k
@@ -105,6 +110,19 @@ func c07Opts(name string) *buildOpts {
 		// an earlier call left an error behind (Err() non-nil) in every stack of the tree
 		return &buildOpts{fwd: true, after: func(s stackage.Stack, path string) {
 			decorate(s).SetErr(errCat)
+		}}
+	case "rejecting-validity-below":
+		// every stack below the root carries a validity policy that currently says no
+		return &buildOpts{after: func(s stackage.Stack, path string) {
+			if path != "r" {
+				s.SetValidityPolicy(func(...any) error { return errCat })
+			}
+		}}
+	case "rejecting-validity-at-depth-2":
+		return &buildOpts{neg: true, after: func(s stackage.Stack, path string) {
+			if strings.Count(path, ".") >= 2 || strings.Count(path, "/") >= 2 {
+				s.SetValidityPolicy(func(...any) error { return errCat })
+			}
 		}}
 	case "locked-down":
 		return &buildOpts{neg: true, after: func(s stackage.Stack, path string) {
@@ -382,7 +400,7 @@ func init() {
 			maxLen = 4
 		}
 		paths := c07Paths(maxLen, -1, 3)
-		optNames := []string{"default", "neg+fwd", "root-only", "children-only", "flags-after", "locked-down", "errored"}
+		optNames := []string{"default", "neg+fwd", "root-only", "children-only", "flags-after", "locked-down", "errored", "rejecting-validity-below", "rejecting-validity-at-depth-2"}
 		c.Rule = "every tree of the bounded family (elements: leaf, nil, empty Stack, Condition(leaf), and nested Stack / alias / pointer-to-alias / Condition(Stack) / Condition(alias) / Condition(Stack) completed after construction; zero alias and nil pointer-to-alias siblings) x 7 option placements (4 for the index options, 3 that switch unrelated flags, mutex, FIFO, read-only, presentation settings or an earlier error on after filling) x every index path of length 0..max with indices in [-1,3]; plus single-child chains of depth 6..14 (thorough: ..33) with every prefix of the way down, every one-index deviation from it and steps beyond a leaf; oracle = stepwise descent written from the statement using the real Index/Convert*/Expression; non-trivial = distinct (tree, options, path) where the stepwise walk fails before the last index or succeeds at depth >= 2"
 		c.Bound["trees"] = len(trees)
 		c.Bound["paths_per_tree"] = len(paths)
